@@ -54,6 +54,10 @@ type c18Item struct {
 	Spec  *specs.Spec       `json:"spec"`
 	Tags  map[string]string `json:"tags"`
 	Descr string            `json:"descr"`
+	// a hand-written Spec file (not produced by the library's writer) that loads
+	// without a validator: Raw is its content, RawName its file name
+	Raw     string `json:"raw,omitempty"`
+	RawName string `json:"raw_name,omitempty"`
 }
 
 type c18Result struct {
@@ -82,6 +86,21 @@ func childC18(args []string) int {
 		if err := json.Unmarshal(sc.Bytes(), &it); err != nil {
 			fmt.Fprintln(os.Stderr, err)
 			return 2
+		}
+		if it.Raw != "" {
+			path := filepath.Join(dir, it.RawName)
+			os.MkdirAll(dir, 0o755)
+			os.WriteFile(path, []byte(it.Raw), 0o644)
+			var rerr error
+			if pv, _ := guard(func() { _, rerr = cdi.ReadSpec(path, 0) }); pv != nil {
+				rerr = fmt.Errorf("panic: %v", pv)
+			}
+			if rerr != nil {
+				out.Encode(c18Result{it.Case, filepath.Ext(it.RawName)[1:], "ReadSpec", rerr.Error()})
+			}
+			os.Remove(path)
+			out.Encode(c18Result{it.Case, "", "done", ""})
+			continue
 		}
 		for _, enc := range []string{"json", "yaml"} {
 			name := "v." + enc
@@ -135,6 +154,26 @@ func checkC18(c *Ctx) {
 			s = c09Base(r)
 			descr = "numeric: " + c18Numeric(r, s)
 			tags["class"] = "numeric"
+		case k < 6 && chance(r, 8):
+			// in-memory shapes a document never has after parsing: nil entries in the lists
+			// of a device's edits, allocated-but-empty lists. If the library accepts such a
+			// Spec for writing it has to stand by it
+			s = c09Base(r)
+			e := &s.Devices[0].ContainerEdits
+			switch r.Intn(5) {
+			case 0:
+				e.Hooks = []*specs.Hook{{HookName: "prestart", Path: "/bin/h"}, nil}
+			case 1:
+				e.Mounts = []*specs.Mount{nil, {HostPath: "/h", ContainerPath: "/c"}}
+			case 2:
+				e.DeviceNodes = []*specs.DeviceNode{{Path: "/dev/x", Type: "c", Major: 1, Minor: 3}, nil}
+			case 3:
+				e.Hooks, e.Mounts, e.DeviceNodes = []*specs.Hook{nil}, []*specs.Mount{nil}, []*specs.DeviceNode{nil}
+			default:
+				e.Hooks, e.Mounts, e.DeviceNodes, e.AdditionalGIDs = []*specs.Hook{}, []*specs.Mount{}, []*specs.DeviceNode{}, []uint32{}
+			}
+			descr = "in-memory shape: nil or empty list entries in a device's edits"
+			tags["class"] = "shape"
 		case k < 6 && chance(r, 6):
 			// a large document: many devices, each with a large annotation set of its own
 			// (every set within the limit): the files written for it exceed 1 MiB, or
@@ -240,7 +279,7 @@ func checkC18(c *Ctx) {
 			}
 		}
 		mu.Lock()
-		items = append(items, c18Item{cs.Name, s, tags, descr})
+		items = append(items, c18Item{Case: cs.Name, Spec: s, Tags: tags, Descr: descr})
 		mu.Unlock()
 	})
 	// many validations at the same time (the cache validates on refresh while callers
@@ -287,6 +326,43 @@ func checkC18(c *Ctx) {
 			c.violation("crowd", "concurrent-rejected", nil, *m, nil)
 		}
 		c.Floor("concurrent_validations", 1000)
+	}
+	// Spec files as people write them by hand: scalars that are not spelt as strings
+	// where strings are meant, explicit nulls for optional members, flow style,
+	// comments. Whatever loads without a validator must load with the builtin schema
+	// installed (checked in the children below)
+	hand := []struct{ name, doc string }{
+		{"plain.yaml", "cdiVersion: 0.6.0\nkind: vendor.com/gpu\ndevices:\n- name: dev0\n  containerEdits:\n    env: [A=b]\n"},
+		{"numeric-name.yaml", "cdiVersion: 0.6.0\nkind: vendor.com/gpu\ndevices:\n- name: 0\n  containerEdits:\n    env: [A=b]\n"},
+		{"numeric-option.yaml", "cdiVersion: 0.6.0\nkind: vendor.com/gpu\ndevices:\n- name: d\n  containerEdits:\n    mounts:\n    - {hostPath: /h, containerPath: /c, options: [ro, 1, true]}\n"},
+		{"annotation-scalars.yaml", "cdiVersion: 0.6.0\nkind: vendor.com/gpu\nannotations:\n  revision: 3\n  enabled: true\n  ratio: 1.5\ndevices:\n- name: d\n  annotations: {n: 7}\n  containerEdits:\n    env: [A=b]\n"},
+		{"null-annotations.yaml", "cdiVersion: 0.6.0\nkind: vendor.com/gpu\nannotations:\ndevices:\n- name: d\n  annotations: ~\n  containerEdits:\n    env: [A=b]\n"},
+		{"null-lists.yaml", "cdiVersion: 0.6.0\nkind: vendor.com/gpu\ndevices:\n- name: d\n  containerEdits:\n    env: [A=b]\n    mounts: null\n    hooks: ~\n    deviceNodes:\n    additionalGids: null\n"},
+		{"null-edits-members.json", `{"cdiVersion":"0.6.0","kind":"vendor.com/gpu","annotations":null,"containerEdits":null,"devices":[{"name":"d","annotations":null,"containerEdits":{"env":["A=b"],"mounts":null,"hooks":null,"deviceNodes":null,"intelRdt":null}}]}`},
+		{"closid-number.json", `{"cdiVersion":"0.7.0","kind":"vendor.com/gpu","devices":[{"name":"d","containerEdits":{"intelRdt":{"closID":7}}}]}`},
+		{"numeric-version.yaml", "cdiVersion: 1.0\nkind: vendor.com/gpu\ndevices:\n- name: d\n  containerEdits:\n    env: [A=b]\n"},
+		{"flow-and-comments.yaml", "# a comment\n{cdiVersion: 0.6.0, kind: vendor.com/gpu, devices: [{name: d, containerEdits: {env: [A=b]}}]} # trailing\n"},
+		{"anchors.yaml", "cdiVersion: 0.6.0\nkind: vendor.com/gpu\ndevices:\n- name: d\n  containerEdits: &e\n    env: [A=b]\n- name: e\n  containerEdits: *e\n"},
+		{"hook-timeout-string.yaml", "cdiVersion: 0.6.0\nkind: vendor.com/gpu\ndevices:\n- name: d\n  containerEdits:\n    hooks:\n    - {hookName: prestart, path: /bin/h, timeout: \"5\"}\n"},
+		{"numeric-env.yaml", "cdiVersion: 0.6.0\nkind: vendor.com/gpu\ndevices:\n- name: d\n  containerEdits:\n    env: [A=1, B=true]\n    deviceNodes:\n    - {path: /dev/x, major: \"1\", minor: 2, permissions: rw, uid: 0}\n"},
+	}
+	if c.replayCase == "" {
+		hdir := filepath.Join(dir, "handwritten")
+		must(os.MkdirAll(hdir, 0o755))
+		for i, h := range hand {
+			path := filepath.Join(hdir, h.name)
+			must(os.WriteFile(path, []byte(h.doc), 0o644))
+			_, err := cdi.ReadSpec(path, 0)
+			os.Remove(path)
+			c.Count("handwritten_files", 1)
+			if err != nil {
+				c.Count("handwritten_files_not_loadable_anyway", 1)
+				continue
+			}
+			c.Count("handwritten_files_loadable", 1)
+			items = append(items, c18Item{Case: fmt.Sprintf("hand:%d", i), Descr: "hand-written file " + h.name, Tags: map[string]string{"class": "hand-written"}, Raw: h.doc, RawName: h.name})
+		}
+		c.Floor("handwritten_files_loadable", 3)
 	}
 	// the validator installed as the Spec validator: dedicated children
 	exe, err := os.Executable()
